@@ -18,8 +18,8 @@ RULE = (
     "mode, so every case is also a cache history; generated cases contain up to 40 queries with adjacent ignorecase pairs on the same "
     "pattern, which crosses the 20-entry eviction. Pattern components come from {tree names, a name with one character replaced by '?', "
     "prefix+'*', '*'+suffix, '*', '?', '?*', '**', '..', '.', '', unknown literals, literals with regex metacharacters}. Exhaustive part: "
-    "all shapes <= 4 (quick) / 5 (thorough) nodes x 2 naming schemes x every start x every relative and absolute pattern of <= 3 / <= 4 "
-    "components over a 10-symbol alphabet. Non-trivial query = it contains a wildcard or '**' and denotes at least one node, or a strict "
+    "all shapes <= 4 (quick) / 5 (thorough) nodes x 3 naming schemes x every start x every relative and absolute pattern of <= 3 / <= 4 "
+    "components over an 11-symbol alphabet. Non-trivial query = it contains a wildcard or '**' and denotes at least one node, or a strict "
     "dead end below the first component; distinct_nontrivial counts cases with such a query."
 )
 ASSUMPTIONS = [
@@ -231,10 +231,10 @@ def random_cases(draw):
     return {"shape": shape, "names": names, "sep": sep, "pathattr": draw(st.sampled_from(["name", "name", "id"])), "queries": queries, "keep_cache": draw(st.booleans()), "mutations": muts}
 
 
-ENUM_COMPS = ["a", "b", "a*", "?", "*", "**", "..", ".", "", "zz"]
+ENUM_COMPS = ["a", "b", "a*", "?", "*", "**", "..", ".", "", "zz", "[a]"]
 # more than _MAXCACHE (20) distinct single components: cycling through them evicts the cache again and again
 CACHE_COMPS = ["a", "b", "a*", "*a", "?", "??", "a?", "?a", "*", "ab", "a.b", "A", "B", "[a]", "a+", "zz", "*b", "b*", "?b", "b?", "a.?", "*.*", "???", "a*b", "A*", "?B"]
-SCHEMES = [["a", "b", "ab"], ["a", "A", "a.b"]]
+SCHEMES = [["a", "b", "ab"], ["a", "A", "a.b"], ["[a]", "a", "b"]]
 
 
 def _enum_cases(max_nodes, maxlen, index, count):
@@ -289,4 +289,4 @@ def run_task(task, acc):
 
 
 def evidence_extra(total, tier):
-    return {"exhaustive_subdomain": "all shapes <= %d nodes x 2 naming schemes x every start x every pattern of <= %d components over %s (relative, and absolute below the root name)" % ((4, 3, ENUM_COMPS) if tier == "quick" else (5, 4, ENUM_COMPS))}
+    return {"exhaustive_subdomain": "all shapes <= %d nodes x 3 naming schemes x every start x every pattern of <= %d components over %s (relative, and absolute below the root name)" % ((4, 3, ENUM_COMPS) if tier == "quick" else (5, 4, ENUM_COMPS))}
